@@ -16,7 +16,7 @@ func init() {
 		ID:    "C08",
 		Level: "exploration",
 		Rule: "well-formed generated streams (≥3 packets) demultiplexed under read schedules (every fixed chunk size 1..400 in thorough / a boundary set in quick, random sizes, one cut at every offset of the " +
-			"first 400 bytes, 1-byte reads) x reader kinds {seekable, bufio, plain} x {explicit, auto-detected} x packet sizes 188+k, each compared with the baseline (explicit 188, seekable, full reads); " +
+			"first 400 bytes, 1-byte reads, last bytes delivered together with io.EOF, reads returning (0, nil)) x reader kinds {seekable, bufio, plain} x {explicit, auto-detected} x packet sizes 188+k, each compared with the baseline (explicit 188, seekable, full reads); " +
 			"distinct = hash of (stream, configuration); non-trivial = the tap observed at least one short read or a non-baseline reader/size configuration",
 		Assumptions: []string{"auto-detection inputs respect the detector's documented assumption: first byte is a sync byte and no 0x47 among the bytes 188..188+k-1 / the k extra bytes",
 			"bufio.Reader sized ≥ 193 bytes", "plain reader + auto-detection: the peeked packets are consumed by design, so the packet list must be a suffix of the baseline and independent of chunking"},
@@ -28,6 +28,8 @@ func init() {
 			need(m, &out, "auto_detections", 500)
 			need(m, &out, "one_byte_read_runs", 30)
 			need(m, &out, "larger_packet_runs", 200)
+			need(m, &out, "eof_with_data_runs", 500)
+			need(m, &out, "zero_read_runs", 500)
 			needSet(m, &out, "reader_x_size", 6)
 			return out
 		},
@@ -200,6 +202,31 @@ func runC08(c *mon.Ctx) {
 			for _, ps := range []int{188, 0} {
 				for _, api := range []string{"data", "packet"} {
 					try("full", s.Bytes, DemuxCfg{PacketSize: ps, Reader: rd, API: api}, rd == "plain" && ps == 0, "full")
+				}
+			}
+		}
+		// (b') the same bytes through readers that use other corners of the io.Reader contract: the last bytes delivered together
+		// with io.EOF, and reads that return (0, nil) now and then
+		for _, rd := range readers {
+			for _, ps := range []int{188, 0} {
+				for _, api := range []string{"data", "packet"} {
+					suffix := rd == "plain" && ps == 0
+					var ch func(int) int
+					cc := "full"
+					switch r.IntN(3) {
+					case 1:
+						k := 1 + r.IntN(400)
+						ch = func(int) int { return k }
+						cc = "fixed"
+					case 2:
+						rr := rand.New(rand.NewPCG(r.Uint64(), 11))
+						ch = func(int) int { return 1 + rr.IntN(400) }
+						cc = "random"
+					}
+					try("eof-with-data", s.Bytes, DemuxCfg{PacketSize: ps, Reader: rd, API: api, Chunk: ch, EOFWithData: true}, suffix, cc+"+eof-with-data")
+					c.Count("eof_with_data_runs")
+					try("zero-reads", s.Bytes, DemuxCfg{PacketSize: ps, Reader: rd, API: api, Chunk: ch, ZeroEvery: 2 + r.IntN(5), EOFWithData: r.IntN(2) == 0}, suffix, cc+"+zero-reads")
+					c.Count("zero_read_runs")
 				}
 			}
 		}
